@@ -42,21 +42,27 @@ namespace
       const int nb = s - mb; if(nb < 1 || nb > maxb) continue;
       if(!c.thorough && mb * nb > 6) continue;
       for(uint64_t bbits = 0; bbits < (uint64_t(1) << (mb * nb)); ++bbits)
-        for(int alphabet = 0; alphabet < 2; ++alphabet)
+        for(const Variant& var : variants(mb * nb <= 6))
           for(int t = 0; t < 2; ++t)
             for(int combo = 0; combo < 5; ++combo)       // (r,x[,y]) types: 0 D,D[,D]  1 B,D[,B]  2 D,B[,D]  3 B,B[,B]  4 B,B,D (y-variant only)
               for(int mode = 0; mode <= 2; ++mode)
-                for(int al = 0; al < (mode ? 7 : 1); ++al)
+                for(int al = 0; al < (mode ? NSCAL : 1); ++al)
                 {
                   if(combo == 4 && mode != 1) continue;
                   if(!c.want()) continue;
-                  ApplyCase op; op.transposed = (t == 1); op.mode = mode; op.alpha = al; op.alphabet = alphabet;
+                  set_extreme_exp<DT>();
+                  const int alphabet = var.alphabet;
+                  ApplyCase op; op.transposed = (t == 1); op.mode = mode; op.alpha = al; op.alphabet = alphabet; op.scenario = var.scenario;
                   const DenseRef D = dense_from_blocks(mb, nb, BH, BW, bbits, alphabet);
                   static const char* cn[5] = {"r:dense x:dense", "r:blocked x:dense", "r:dense x:blocked", "r:blocked x:blocked", "r:blocked x:blocked y:dense"};
                   const std::string kind = "bcsr<" + bs + ">" + (bbits == 0 ? "[entry-free]" : "") + " " + cn[combo];
                   c.desc([&]{ return "bcsr<" + tp<DT, IT>() + "," + bs + "> blocks " + std::to_string(mb) + "x" + std::to_string(nb) + " blockpattern=" + std::to_string(bbits) + " scalar " + D.str() + " " + cn[combo] + " " + op.str(); });
-                  M A = build_bcsr<DT, IT, BH, BW>(D, mb, nb, bbits);
-                  // tie the container to the oracle
+                  M A0 = build_bcsr<DT, IT, BH, BW>(D, mb, nb, bbits);
+                  const int dk = derive_kind(var.scenario);
+                  M A = dk ? derive_matrix<M, SparseMatrixBCSR<DT, typename OtherIndex<IT>::type, BH, BW>>(A0, dk) : A0.clone(CloneMode::Shallow);
+                  if(dk) c.count("derived_object_cases");
+                  // tie the container to the oracle (base scenario: only after the operation, the apply is the first access)
+                  auto tie = [&]{
                   bool same = (A.rows() == Index(mb) && A.columns() == Index(nb) && A.template rows<Perspective::pod>() == Index(D.m) && A.template columns<Perspective::pod>() == Index(D.n));
                   if(bbits != 0)
                     for(int I = 0; I < mb && same; ++I) for(int J = 0; J < nb && same; ++J)
@@ -64,7 +70,9 @@ namespace
                       const auto blk = A(Index(I), Index(J));
                       for(int bi = 0; bi < BH; ++bi) for(int bj = 0; bj < BW; ++bj) if(!(blk[bi][bj] == DT(D.at(I * BH + bi, J * BW + bj)))) same = false;
                     }
-                  c.check(same, "bcsr.operator() != generator", "container does not represent the generated matrix");
+                  c.check(same, "bcsr.operator() != generator", "container does not represent the generated matrix"); };
+                  if(var.scenario != S_BASE) tie();
+                  const uint64_t h0 = hash_of(A0);
 #define C01_BCSR_ONE(TT) \
                   switch(combo) { \
                   case 0: bcsr_one<DT, IT, BH, BW, TT, false, false, false>(c, A, D, mb, nb, op, kind); break; \
@@ -74,8 +82,10 @@ namespace
                   default: bcsr_one<DT, IT, BH, BW, TT, true, true, true>(c, A, D, mb, nb, op, kind); break; }
                   if(t) { C01_BCSR_ONE(true) } else { C01_BCSR_ONE(false) }
 #undef C01_BCSR_ONE
+                  c.check(hash_of(A0) == h0, "bcsr source-of-derived-object modified", "the object the matrix was cloned/converted from changed");
+                  tie();
                   const bool early = (bbits == 0) || (mode && fabsl(scalars[al].v) < 1e-10L);
-                  if(!early) c.nontrivial(verif::Hash().str("bcsr").str(tp<DT, IT>()).pod(BH).pod(BW).pod(mb).pod(nb).pod(bbits).pod(t).pod(combo).pod(mode).pod(al).pod(alphabet).get());
+                  if(!early) c.nontrivial(verif::Hash().str("bcsr").str(tp<DT, IT>()).pod(BH).pod(BW).pod(mb).pod(nb).pod(bbits).pod(t).pod(combo).pod(mode).pod(al).pod(var).get());
                   c.outcome("bcsr/" + op.name() + " " + cn[combo] + (early ? " early-out" : ""));
                   c.count("applies");
                 }
@@ -91,28 +101,41 @@ namespace
     const int maxd = c.thorough ? 5 : 4;
     for(int m = 1; m <= maxd; ++m) for(int n = 1; n <= maxd; ++n)
       for(int zeros = 0; zeros < 3; ++zeros)       // 0: full values, 1: checkerboard of exact zeros, 2: all zero
-        for(int alphabet = 0; alphabet < 2; ++alphabet)
+        for(const Variant& var : variants(true))
           for(const ApplyCase& op0 : ops)
           {
             if(!c.want()) continue;
-            ApplyCase op = op0; op.alphabet = alphabet;
+            set_extreme_exp<DT>();
+            const int alphabet = var.alphabet;
+            ApplyCase op = op0; op.alphabet = alphabet; op.scenario = var.scenario;
             DenseRef D(m, n);
             for(int i = 0; i < m; ++i) for(int j = 0; j < n; ++j)
               D.set(i, j, (zeros == 2 || (zeros == 1 && ((i + j) & 1))) ? LD(0) : aval(alphabet, i, j));
             c.desc([&]{ return "dense<" + tp<DT, IT>() + "> " + std::to_string(m) + "x" + std::to_string(n) + " zeros=" + std::to_string(zeros) + " " + op.str(); });
-            M A{Index(m), Index(n)};
-            for(int i = 0; i < m; ++i) for(int j = 0; j < n; ++j) A(Index(i), Index(j), DT(D.at(i, j)));
-            bool same = (A.rows() == Index(m) && A.columns() == Index(n));
-            for(int i = 0; i < m && same; ++i) for(int j = 0; j < n; ++j) if(!(A(Index(i), Index(j)) == DT(D.at(i, j)))) same = false;
-            c.check(same, "dense.operator() != generator", "container does not represent the generated matrix");
+            M A0{Index(m), Index(n)};
+            for(int i = 0; i < m; ++i) for(int j = 0; j < n; ++j) A0.elements()[i * n + j] = DT(D.at(i, j));
+            const int dk = derive_kind(var.scenario);
+            M A = dk ? derive_matrix<M, DenseMatrix<DT, typename OtherIndex<IT>::type>>(A0, dk) : A0.clone(CloneMode::Shallow);
+            if(dk) c.count("derived_object_cases");
+            auto tie = [&]{
+              bool same = (A.rows() == Index(m) && A.columns() == Index(n));
+              for(int i = 0; i < m && same; ++i) for(int j = 0; j < n; ++j) if(!(A(Index(i), Index(j)) == DT(D.at(i, j)))) same = false;
+              c.check(same, "dense.operator() != generator", "container does not represent the generated matrix"); };
+            if(var.scenario != S_BASE) tie();
+            if(var.scenario == S_HIST || var.scenario == S_COMBO)
+            {
+              V t1{Index(op.transposed ? m : n), DT(3)}, t2{Index(op.transposed ? n : m), DT(5)};
+              if(op.transposed) A.apply(t1, t2); else A.apply_transposed(t1, t2);
+            }
             V r(Index(op.transposed ? n : m)), y(Index(op.transposed ? n : m)), x(Index(op.transposed ? m : n));
             check_apply(c, "dense", D, op, r, y, x,
               [&](int mode, V& rr, const V& xx, const V& yy, DT al) {
                 if(op.transposed) { if(mode == 0) A.apply_transposed(rr, xx); else A.apply_transposed(rr, xx, yy, al); }
                 else { if(mode == 0) A.apply(rr, xx); else A.apply(rr, xx, yy, al); } },
-              [&]{ return hash_of(A); });
+              [&]{ verif::Hash h; hash_container(A0, h); hash_container(A, h); return h.get(); });
+            tie();
             const bool early = (op.mode && fabsl(scalars[op.alpha].v) < 1e-10L);
-            if(!early && zeros != 2) c.nontrivial(verif::Hash().str("dense").str(tp<DT, IT>()).pod(m).pod(n).pod(zeros).pod(op.transposed).pod(op.mode).pod(op.alpha).pod(alphabet).get());
+            if(!early && zeros != 2) c.nontrivial(verif::Hash().str("dense").str(tp<DT, IT>()).pod(m).pod(n).pod(zeros).pod(op.transposed).pod(op.mode).pod(op.alpha).pod(var).get());
             c.outcome(std::string("dense/") + op.name() + (early ? " early-out" : ""));
             c.count("applies");
           }
@@ -130,16 +153,17 @@ namespace
 int main(int argc, char** argv)
 {
   FEAT::Runtime::ScopeGuard guard(argc, argv);
-  verif::Spec spec; spec.property = "C01"; spec.harness = "c01_apply_blk";
+  verif::Spec spec; spec.property = "C01"; spec.harness = "c01_apply_blk"; spec.case_timeout_s = 120;
   spec.rule = "case = (container kind, type pair, block shape / shape, one of ALL block patterns resp. ALL subsets of the m+n-1 diagonals, "
-    "operand vector types (every DenseVector/DenseVectorBlocked overload), operation {apply, apply_transposed} x {r:=Ax, r:=y+aAx r!=y, r==y}, alpha, alphabet); "
+    "operand vector types (every DenseVector/DenseVectorBlocked overload), variant = alphabet {exact, rounding, all-negative, extreme-magnitude} on a fresh object or scenario {other calls first, sub-range views, deep/shallow/weak clone, moved, index-type round trip, combination}, "
+    "operation {apply, apply_transposed} x {r:=Ax, r:=y+aAx r!=y, r==y}, alpha); every operation is repeated on the filled objects; "
     "non-trivial = matrix has entries and |alpha|>=eps; hash over all of these";
   spec.bounds_quick = "BCSR block shapes {1,2,3}x{1,2,3} for (double,u64), 2x3,3x2,2x2 for (float,u32), 3x3,1x2 for (double,u32); block grids up to 2x3/3x2, all 170 block patterns; "
-    "Banded (generic kernel): shapes {1..4}^2, all offset subsets, padding 0 / NaN; DenseMatrix shapes {1..4}^2; alpha in {0,1,-1,1/2,2,0.3,1e-20}; exact + rounding alphabet";
+    "Banded (generic kernel): shapes {1..4}^2, all offset subsets, padding 0 / NaN; DenseMatrix shapes {1..4}^2; alpha in {0,1,-1,1/2,2,0.3,1e-20,-1e-20,1e-300}; 12 variants per pattern";
   spec.bounds_thorough = "BCSR block grids {1..3}x{1..3} (all 682 block patterns); Banded shapes {1..5}^2 (up to 512 offset subsets); DenseMatrix {1..5}^2";
   spec.assumptions = {
     "oracle: dense long double product written in the harness; operator()(i,j) of every generated container is compared with the generator",
-    "exact alphabet compared with ==; rounding alphabet / alpha in {0.3,1e-20}: |err| <= 8(len+2) eps (|A||x| max(1,|alpha|) + |y|)",
+    "exact / all-negative / extreme (denormal matrix entries, 2^1000 vector entries) alphabets compared with ==; rounding alphabet / non-dyadic alpha: |err| <= 8(len+2) eps (|A||x| max(1,|alpha|) + |y|)",
     "r pre-filled with NaN in the r!=y cases; banded padding entries (outside of the matrix) filled with 0 or NaN: they must never be read",
     "excluded: r aliasing x (XASSERT); SparseMatrixBanded::apply_transposed (generic kernel is XABORTM(\"not implemented\")); zero dimensions",
     "observation only: BCSR apply(blocked r, blocked x, dense y) early-out re-binds r to y's memory (r.convert(y))"};
